@@ -417,6 +417,9 @@ def correspondence(tier, seed, focus=None, histories=None, maxops=None):
                 json.dump({"gen_s": t1 - t0, "model_s": time.time() - t1}, f)
             log("correspondence run %s: gen %.1fs, model %.1fs" % (key, t1 - t0, time.time() - t1))
     _prune(os.path.join(CACHE, "corr"), keep=8, protect=d)
+    _prune(os.path.join(CACHE, "pure"), keep=8, protect=None)
+    _prune(CACHE, keep=6, protect=None, prefix="harness-")
+    _prune(CACHE, keep=6, protect=None, prefix="replay-")
     runs = []
     for w in range(plan["workers"]):
         ops = os.path.join(d, "w%d.ops" % w)
@@ -435,10 +438,10 @@ def correspondence(tier, seed, focus=None, histories=None, maxops=None):
     return runs, d
 
 
-def _prune(root, keep, protect):
+def _prune(root, keep, protect, prefix=""):
     """disk hygiene: keep only the most recent cached runs"""
     try:
-        ds = sorted((os.path.join(root, n) for n in os.listdir(root)), key=os.path.getmtime, reverse=True)
+        ds = sorted((os.path.join(root, n) for n in os.listdir(root) if n.startswith(prefix)), key=os.path.getmtime, reverse=True)
         now = time.time()
         for old in ds[keep:]:
             # never touch a run another concurrent check may still be reading
